@@ -41,6 +41,10 @@ struct PoolKey {
     split: SignedSecretKey,
     /// unlocked, with foreign encryption subkeys placed in front of the real ones
     extra: SignedSecretKey,
+    /// only the encryption-relevant packet locked (with `kpw`), the other secret packets unlocked
+    half_locked: SignedSecretKey,
+    /// the encryption-relevant packet unlocked, the other secret packets locked with another password
+    half_plain: SignedSecretKey,
     kpw: String,
     /// recipient identifiers of the encryption (sub)key
     key_id: Vec<u8>,
@@ -129,6 +133,23 @@ impl Pool {
             } else {
                 lock_key(&plain, &other, &kpw, &mut rng, n + 1)
             };
+            // mixed protection: primary and subkeys differ in whether they are locked at all
+            let (half_locked, half_plain) = {
+                let mut hl = plain.clone();
+                let mut hp = plain.clone();
+                if enc_primary {
+                    hl.primary_key.set_password_with_s2k(&kpw.as_str().into(), cheap_s2k(&mut rng, n)).expect("lock primary");
+                    for s in hp.secret_subkeys.iter_mut() {
+                        s.key.set_password_with_s2k(&other.as_str().into(), cheap_s2k(&mut rng, n)).expect("lock subkey");
+                    }
+                } else {
+                    for s in hl.secret_subkeys.iter_mut() {
+                        s.key.set_password_with_s2k(&kpw.as_str().into(), cheap_s2k(&mut rng, n)).expect("lock subkey");
+                    }
+                    hp.primary_key.set_password_with_s2k(&other.as_str().into(), cheap_s2k(&mut rng, n)).expect("lock primary");
+                }
+                (hl, hp)
+            };
             let mut extra = plain.clone();
             let mut front = vec![donor_x.secret_subkeys[0].clone()];
             if !is_rsa && !enc_primary {
@@ -153,6 +174,8 @@ impl Pool {
                 locked,
                 split,
                 extra,
+                half_locked,
+                half_plain,
                 kpw,
                 key_id,
                 fpr,
@@ -415,8 +438,10 @@ enum Form {
     Locked,
     Split,
     Extra,
+    HalfLocked,
+    HalfPlain,
 }
-const FORMS: [Form; 4] = [Form::Plain, Form::Locked, Form::Split, Form::Extra];
+const FORMS: [Form; 6] = [Form::Plain, Form::Locked, Form::Split, Form::Extra, Form::HalfLocked, Form::HalfPlain];
 
 #[derive(Clone)]
 enum SkP {
@@ -444,7 +469,7 @@ impl Pres {
     /// adds a key together with the key password its form needs
     fn with_key(mut self, pool: &Pool, k: usize, f: Form) -> Pres {
         self.keys.push((k, f));
-        if matches!(f, Form::Locked | Form::Split) && !self.key_pws.contains(&pool.keys[k].kpw) {
+        if matches!(f, Form::Locked | Form::Split | Form::HalfLocked) && !self.key_pws.contains(&pool.keys[k].kpw) {
             self.key_pws.push(pool.keys[k].kpw.clone());
         }
         self
@@ -481,8 +506,8 @@ impl Pres {
 
 fn key_usable(pool: &Pool, k: usize, f: Form, key_pws: &[String]) -> bool {
     match f {
-        Form::Plain | Form::Extra => true,
-        Form::Locked | Form::Split => key_pws.iter().any(|p| *p == pool.keys[k].kpw),
+        Form::Plain | Form::Extra | Form::HalfPlain => true,
+        Form::Locked | Form::Split | Form::HalfLocked => key_pws.iter().any(|p| *p == pool.keys[k].kpw),
     }
 }
 
@@ -516,7 +541,7 @@ fn classify(pool: &Pool, t: &Truth, p: &Pres) -> Judged {
         if holder.is_empty() {
             flags.insert('d');
         } else if key_usable(pool, *k, *f, &p.key_pws) {
-            flags.insert(if matches!(f, Form::Locked | Form::Split) { 'K' } else { 'k' });
+            flags.insert(if matches!(f, Form::Locked | Form::Split | Form::HalfLocked) { 'K' } else { 'k' });
             derived.extend(holder);
         } else {
             flags.insert('L');
@@ -614,6 +639,8 @@ fn execute(ctx: &mut Ctx, pool: &Pool, t: &Truth, bytes: &[u8], p: &Pres, sigpre
             Form::Locked => &pool.keys[*k].locked,
             Form::Split => &pool.keys[*k].split,
             Form::Extra => &pool.keys[*k].extra,
+            Form::HalfLocked => &pool.keys[*k].half_locked,
+            Form::HalfPlain => &pool.keys[*k].half_plain,
         })
         .collect();
     let key_pws: Vec<Password> = p.key_pws.iter().map(|s| Password::from(s.as_str())).collect();
@@ -1144,7 +1171,7 @@ fn fam_a(ctx: &mut Ctx, pool: &Pool) {
             for (ai, api) in apis.iter().enumerate() {
                 let mut p = Pres::new(*api);
                 for (pos, k) in ks.iter().enumerate() {
-                    p = p.with_key(pool, *k, FORMS[(c + pos + ai) % 4]);
+                    p = p.with_key(pool, *k, FORMS[(c + pos + ai) % 6]);
                 }
                 for w in &ps {
                     p = p.with_pw(w);
@@ -1162,7 +1189,7 @@ fn fam_a(ctx: &mut Ctx, pool: &Pool) {
             let mut p = Pres::new(Api::Ring(rng.gen()));
             for x in &idx {
                 if *x < nk {
-                    p = p.with_key(pool, spec.keys[*x].0, FORMS[rng.gen_range(0..4)]);
+                    p = p.with_key(pool, spec.keys[*x].0, FORMS[rng.gen_range(0..6)]);
                 } else {
                     p = p.with_pw(&spec.pws[*x - nk].0);
                 }
@@ -1176,9 +1203,9 @@ fn fam_a(ctx: &mut Ctx, pool: &Pool) {
                 if p.keys.iter().any(|(k, _)| *k == d) {
                     continue;
                 }
-                let f = FORMS[rng.gen_range(0..4)];
+                let f = FORMS[rng.gen_range(0..6)];
                 insert_at_random(&mut p.keys, (d, f), &mut rng);
-                if matches!(f, Form::Locked | Form::Split) && rng.gen_bool(0.5) {
+                if matches!(f, Form::Locked | Form::Split | Form::HalfLocked) && rng.gen_bool(0.5) {
                     let pw = pool.keys[d].kpw.clone();
                     insert_at_random(&mut p.key_pws, pw, &mut rng);
                 }
@@ -1223,7 +1250,7 @@ fn fam_a(ctx: &mut Ctx, pool: &Pool) {
                 if p.keys.iter().any(|(k, _)| *k == d) {
                     continue;
                 }
-                p = p.with_key(pool, d, FORMS[rng.gen_range(0..4)]);
+                p = p.with_key(pool, d, FORMS[rng.gen_range(0..6)]);
             }
             if p.keys.len() == 1 && rng.gen() {
                 p.api = Api::Decrypt;
@@ -1265,7 +1292,7 @@ fn fam_a(ctx: &mut Ctx, pool: &Pool) {
             // everything wrong at once
             let d = pool.pick_other(&mut rng, &recips);
             let p = Pres::new(Api::Ring(false))
-                .with_key(pool, d, FORMS[rng.gen_range(0..4)])
+                .with_key(pool, d, FORMS[rng.gen_range(0..6)])
                 .with_pw(&wrong_password(&mut rng, None))
                 .with_sk(wrong_sk(&t, "random", &mut rng));
             check_negative(ctx, pool, &t, &bytes, &p, "A", &shape, &mut rng);
@@ -1275,7 +1302,7 @@ fn fam_a(ctx: &mut Ctx, pool: &Pool) {
         {
             let mut base = Pres::new(Api::Ring(false));
             if nk > 0 && (np == 0 || rng.gen()) {
-                base = base.with_key(pool, spec.keys[0].0, FORMS[rng.gen_range(0..4)]);
+                base = base.with_key(pool, spec.keys[0].0, FORMS[rng.gen_range(0..6)]);
             } else {
                 base = base.with_pw(&spec.pws[0].0);
             }
@@ -1522,14 +1549,14 @@ fn fam_b(ctx: &mut Ctx, pool: &Pool) {
                         bytes.extend_from_slice(&p1[1].2);
                         let sh = format!("{shape}|{}", if before { "before" } else { "after" });
                         // the intended recipient alone
-                        let f = FORMS[rng.gen_range(0..4)];
+                        let f = FORMS[rng.gen_range(0..6)];
                         check(ctx, pool, &t, &bytes, &Pres::new(Api::Decrypt).with_key(pool, a, f), "B", &sh, false);
                         check(ctx, pool, &t, &bytes, &Pres::new(Api::Ring(false)).with_key(pool, a, Form::Plain), "B", &sh, false);
                         // with the decoy's key and another key around it, every position of the recipient
                         for order in [[a, b, c], [b, a, c], [b, c, a]] {
                             let mut p = Pres::new(Api::Ring(rng.gen()));
                             for k in order {
-                                p = p.with_key(pool, k, FORMS[rng.gen_range(0..4)]);
+                                p = p.with_key(pool, k, FORMS[rng.gen_range(0..6)]);
                             }
                             if rng.gen_bool(0.3) {
                                 p.api = Api::WithKeys;
@@ -1538,7 +1565,7 @@ fn fam_b(ctx: &mut Ctx, pool: &Pool) {
                         }
                         // decoy-only
                         check_negative(ctx, pool, &t, &bytes, &Pres::new(Api::Decrypt).with_key(pool, b, Form::Plain), "B", &sh, &mut rng);
-                        let p = Pres::new(Api::Ring(rng.gen())).with_key(pool, c, FORMS[rng.gen_range(0..4)]).with_key(pool, b, FORMS[rng.gen_range(0..4)]);
+                        let p = Pres::new(Api::Ring(rng.gen())).with_key(pool, c, FORMS[rng.gen_range(0..6)]).with_key(pool, b, FORMS[rng.gen_range(0..6)]);
                         check_negative(ctx, pool, &t, &bytes, &p, "B", &sh, &mut rng);
                     }
                 }
@@ -1747,7 +1774,7 @@ fn fam_c(ctx: &mut Ctx, pool: &Pool) {
                         for ae in [false, true] {
                             let mut p = Pres::new(Api::Ring(ae));
                             for k in ks {
-                                p = p.with_key(pool, *k, FORMS[rng.gen_range(0..4)]);
+                                p = p.with_key(pool, *k, FORMS[rng.gen_range(0..6)]);
                             }
                             for w in ps {
                                 p = p.with_pw(w);
@@ -1759,7 +1786,7 @@ fn fam_c(ctx: &mut Ctx, pool: &Pool) {
                         }
                         // convenience entry points where they apply
                         if ps.is_empty() && xs.is_empty() && ks.len() == 1 {
-                            let p = Pres::new(Api::Decrypt).with_key(pool, ks[0], FORMS[rng.gen_range(0..4)]);
+                            let p = Pres::new(Api::Decrypt).with_key(pool, ks[0], FORMS[rng.gen_range(0..6)]);
                             check_negative(ctx, pool, &t, &bytes, &p, "C", &shape, &mut rng);
                         } else if ps.is_empty() && xs.is_empty() {
                             let mut p = Pres::new(Api::WithKeys);
